@@ -131,11 +131,14 @@ func (w *World) inRepo(fn *ssa.Function) bool {
 }
 
 // inlineOK: a few tiny standard-library functions that are exact to inline.
+// Loop-free functions of a few small standard-library packages are executed from their real
+// source (loaded with the program) instead of being given assumed contracts.
 func (w *World) inlineOK(full string) bool {
-	switch full {
-	case "bytes.Equal", "(encoding/binary.littleEndian).Uint32", "(encoding/binary.littleEndian).Uint64", "(encoding/binary.littleEndian).Uint16",
-		"(encoding/binary.littleEndian).PutUint32", "(encoding/binary.littleEndian).PutUint64", "(encoding/binary.littleEndian).PutUint16":
-		return false
+	for _, p := range []string{"(*bytes.Buffer).", "(encoding/binary.littleEndian).", "(*encoding/base64.Encoding).DecodedLen", "(*encoding/base64.Encoding).EncodedLen",
+		"bytes.NewBuffer", "encoding/base64.decodedLen", "encoding/base64.encodedLen"} {
+		if strings.HasPrefix(full, p) {
+			return true
+		}
 	}
 	return false
 }
